@@ -1,6 +1,6 @@
 """C11 - substring and editing methods keep the style of every surviving character."""
 from .. import obs as O
-from .common import Contract, ansi_values, history, run_cases, tier_sizes, is_ansi, safe_obs, esc_seam_values
+from .common import Contract, ansi_values, history, run_cases, tier_sizes, is_ansi, safe_obs, esc_seam_values, small_scope_values, small_scope_on
 from .c10 import STRIP_DEFAULT
 from ..gen import gen_text
 
@@ -407,6 +407,38 @@ def drive(ctx, mon, tier, only_case=None):
     sz = tier_sizes(tier)
 
     def body(rng, ex, case):
+        if case == 0:
+            # bounded-exhaustive part: every small-scope value x a fixed battery of substring / editing calls
+            m = small_scope_on(ctx, tier)
+            nv = 0
+            q = L.AnsiString('Q', 'italic')
+            for v, _ in small_scope_values(L, m, ctx.shard, ctx.extra.get('nshards', 1),
+                                            cls=L.AnsiStr if ctx.shard % 4 == 2 else None):
+                nv += 1
+                for sep in ('a', 'b', 'bc', 'd', 'ab', 'cd'):
+                    v.split(sep)
+                    v.rsplit(sep, 1)
+                    v.partition(sep)
+                    v.rpartition(sep)
+                    v.replace(sep, 'X')
+                    v.replace(sep, 'XYZ', 1)
+                    v.replace(sep, q)
+                    v.removeprefix(sep)
+                    v.removesuffix(sep)
+                    v.strip(sep)
+                for f in ('upper', 'swapcase', 'title', 'capitalize', 'splitlines'):
+                    getattr(v, f)()
+                v.replace('', '-')
+                v.replace('', q, 2)
+                v.lstrip('ab')
+                v.rstrip('cd')
+                if isinstance(v, L.AnsiString):
+                    for t in ('ab', 'abcdef', '', 'abcd', 'a'):
+                        with mon.quiet():
+                            c = L.AnsiString(v)
+                        c.assign_str(t)
+            ctx.extra['n_small_scope_values'] = nv
+            return
         history(L, rng, ex, rng.randint(2, sz['nops']), sz['maxlen'], 'mixed' if rng.random() < 0.25 else 'wf', WEIGHTS,
                 esc=rng.random() < 0.12)
         vals = ansi_values(L, ex)
